@@ -58,6 +58,10 @@ def Call(f, *args):
     return {"k": "call", "f": f, "args": list(args), "p": newp()}
 
 
+def Spawn(f, *args):
+    return {"k": "spawn", "f": f, "args": list(args), "p": newp()}
+
+
 def CallV(e, *args):
     return {"k": "callv", "e": e, "args": list(args), "p": newp()}
 
@@ -249,6 +253,13 @@ def r_expr(w, n, ind):
         w.w(")")
     elif k == "call":
         w.w(n["f"] + "(")
+        for i, a in enumerate(n["args"]):
+            if i:
+                w.w(", ")
+            r_expr(w, a, ind)
+        w.w(")")
+    elif k == "spawn":
+        w.w("spawn " + n["f"] + "(")
         for i, a in enumerate(n["args"]):
             if i:
                 w.w(", ")
